@@ -27,8 +27,12 @@ def build(gj):
             lazy[name] = P.import_(name, as_={"irfns": "fx", "numpy": "np"}[name])
         return lazy[name]
     for i, n in enumerate(gj["nodes"], 1):
-        k, a, b, d = n["k"], vals[n["a"]], vals.get(n["b"]), vals.get(n["d"])
-        if k == "call":
+        k, a, b, d = n["k"], vals.get(n["a"]), vals.get(n["b"]), vals.get(n["d"])
+        if k == "gen":
+            v = P.call(const("z"), [])
+        elif k == "cut":
+            v = P.getitem(a, slice(0, None, -1))
+        elif k == "call":
             v = P.call(const("f"), [a, b])
         elif k == "cali":
             v = P.call(P.getattr(module("irfns"), "g"), [a, b])
@@ -71,7 +75,7 @@ def probe_inputs(nin, seed):
 
 def _wrap(x, w):
     for k in w:
-        x = x.T if k == "view" else x[::-1]
+        x = x.T if k == "view" else (x[::-1] if k == "rev" else x[0::-1])
     return x
 
 
@@ -83,6 +87,8 @@ def interp(t, inputs):
         return inputs[int(t["w"][0]) - 1].copy()
     if k == "dim":
         return np.int64(N)
+    if k == "gen":
+        return np.array([5, 6, 7, 8], dtype=np.int64)
     if k == "view":
         return _wrap(interp(ch[0], inputs), t["w"]).copy()
     if k in ("call", "lam", "cali", "op"):
@@ -108,7 +114,8 @@ def interp(t, inputs):
 
 
 def expected_effects(gj):
-    c = {"f": 0, "g": 0, "h": 0, "apply": 0}
+    c = {"f": 0, "g": 0, "h": 0, "apply": 0, "z": 0}
+    c["z"] = sum(1 for n in gj["nodes"] if n["k"] == "gen")
     for n in gj["nodes"]:
         if n["k"] in ("call", "lam"):
             c["f"] += 1
@@ -129,8 +136,10 @@ def describe(gj):
     parts = []
     for i, n in enumerate(gj["nodes"], 1):
         k = n["k"]
-        if k in ("view", "rev", "cast", "assert", "dim"):
-            s = {"view": "%s.T", "rev": "%s[::-1]", "cast": "cast(%s)", "assert": "assert_(%s)", "dim": "%s.shape[0]"}[k] % r(n["a"])
+        if k == "gen":
+            s = "z()"
+        elif k in ("view", "rev", "cast", "assert", "dim", "cut"):
+            s = {"view": "%s.T", "rev": "%s[::-1]", "cast": "cast(%s)", "assert": "assert_(%s)", "dim": "%s.shape[0]", "cut": "%s[0::-1]"}[k] % r(n["a"])
         elif k in ("upd", "set"):
             s = "%s[0:n] %s %s" % (r(n["a"]), "+=" if k == "upd" else "=", r(n["b"]))
         else:
@@ -148,6 +157,7 @@ def run_graph(gj, seed=0):
     graph = build(gj)
     IR.install_capture()
     IR.drain()
+    irfns.reset()         # statements that do not depend on the inputs run once, when the module text is executed
     try:
         fn, code = tracer.compiler.python.compile(graph, return_code=True)
     except Exception as e:
@@ -155,7 +165,6 @@ def run_graph(gj, seed=0):
     recs = IR.drain()
     ins = probe_inputs(gj["nin"], seed)
     args = [x.copy() for x in ins]
-    irfns.reset()
     try:
         with warnings.catch_warnings():
             warnings.simplefilter("ignore")
@@ -175,7 +184,7 @@ def run_graph(gj, seed=0):
         wantin = [interp(t, ins) for t in exp["inputs"]]
         if any(not np.array_equal(a, b) for a, b in zip(args, wantin)):
             findings.append({"kind": "input-buffers-differ-from-meaning", "detail": "after the call the arguments hold %s, the graph means %s" % ([a.tolist() for a in args], [b.tolist() for b in wantin])})
-        cnt = {k: log.count(k) for k in ("f", "g", "h", "apply")}
+        cnt = {k: log.count(k) for k in ("f", "g", "h", "apply", "z")}
         if cnt != expected_effects(gj):
             findings.append({"kind": "effect-count", "detail": "calls executed %s, nodes in the graph %s" % (cnt, expected_effects(gj))})
     return findings, (recs[-1] if recs else None), code, ins
